@@ -1,29 +1,60 @@
 /-
-C03 — model of the instance loop (core/engine/instance.go `instance.Run`) over a shared or per-instance
-finite schedule and a bounded or unbounded ammo provider, as a labelled transition system:
-every interleaving of any number of instances is a list of events; an event that is not enabled is rejected.
-The events are exactly what the correspondence harness observes on the real engine.
+C03 — model of one instance pool of the engine (core/engine/engine.go `instancePool`, core/engine/instance.go
+`instance.Run`) over a shared or per-instance finite schedule and a bounded or unbounded ammo provider, as a labelled
+transition system.  Every interleaving of any number of instances, started at any moments of the run, is a list of
+events; an event that is not enabled is rejected (`step … = none`).  The events are exactly what the correspondence
+harness observes on the real engine (plus the two counter increments around `Shoot`, whose position is fixed by the
+regenerated loop body, see `Pandora.Bridge.InstLoop`).
+
+One iteration of `instance.Run`, in source order (regenerated: `Pandora.Gen.InstLoop.iterBody`):
+
+    for !waiter.IsFinished(ctx) {            chk   : sched.Left() observed; 0 ⇒ leave the loop
+      ammo, ok := provider.Acquire()         acq / empty
+      if !ok { return outOfAmmoErr }
+      defer provider.Release(ammo)           rel   (runs when the iteration function returns)
+      if !waiter.Wait(ctx) { return nil }    tokOk / tokEnd : sched.Next()
+      if !discardOverflow || !IsSlowDown {
+        metrics.Request.Add(1)               reqAdd
+        gun.Shoot(ammo)                      shoot
+        metrics.Response.Add(1)              respAdd
+      } else { aggregator.Report(DiscardedShootSample()) }   discard
+    }
+
+Ammo items are identified by their acquisition number (0, 1, 2 … in the order of the `acq` events); `cur[i]` is the
+local variable `ammo` of instance `i`; `rels[k]` counts the releases of item `k`; `badUse` records a `Shoot` or a
+`Release` of an item that is not held (the transition system does NOT forbid it — that it never happens is a theorem).
 -/
 namespace Pandora.Model.C03
 
 inductive Pc where
+  | idle      -- not started yet (the startup schedule has not produced this instance)
   | check     -- top of the loop: `waiter.IsFinished(ctx)` → `sched.Left() == 0`
   | acquire   -- `provider.Acquire()`
   | wait      -- holds an ammo; `waiter.Wait(ctx)` → `sched.Next()`
-  | decide    -- holds an ammo and a token: shoot or (discard_overflow) report a discarded sample
-  | release   -- `provider.Release(ammo)` (deferred)
+  | decide    -- holds an ammo and a token: fire or (discard_overflow) report a discarded sample
+  | firing    -- `metrics.Request.Add(1)` done, `gun.Shoot` not yet called
+  | shot      -- `gun.Shoot` called, `metrics.Response.Add(1)` not yet done
+  | release   -- `provider.Release(ammo)` (deferred) is next
   | done      -- left the loop (schedule finished) or out of ammo
 deriving Repr, DecidableEq
 
+/-- the instance holds an ammo item (between `Acquire` and the deferred `Release`) -/
+def Pc.holds : Pc → Bool
+  | .wait | .decide | .firing | .shot | .release => true
+  | _ => false
+
 inductive Ev where
+  | start (i : Nat)              -- instance `i` begins `Run` (`metrics.InstanceStart.Add(1)`); its schedule is created
   | chk (i : Nat) (left : Nat)   -- IsFinished observed `Left() = left`
   | acq (i : Nat)                -- Acquire returned an ammo
   | empty (i : Nat)              -- Acquire reported end of ammo
   | tokOk (i : Nat)              -- Next() gave a token
   | tokEnd (i : Nat)             -- Next() reported the schedule finished
-  | shoot (i : Nat)
-  | discard (i : Nat)
-  | rel (i : Nat)
+  | reqAdd (i : Nat)             -- metrics.Request.Add(1)
+  | shoot (i : Nat) (k : Nat)    -- gun.Shoot(ammo) with ammo = item k
+  | respAdd (i : Nat)            -- metrics.Response.Add(1)
+  | discard (i : Nat)            -- aggregator.Report(DiscardedShootSample())
+  | rel (i : Nat) (k : Nat)      -- provider.Release(ammo) with ammo = item k
 deriving Repr, DecidableEq
 
 structure Cfg where
@@ -31,29 +62,33 @@ structure Cfg where
   tokens : Nat            -- tokens of one full profile
   ammo : Option Nat       -- ammo items available (none = unbounded)
   discardOn : Bool        -- discard_overflow
-  instances : Nat         -- started instances
+  instances : Nat         -- upper bound of the number of instances the startup schedule can start
 deriving Repr
 
 structure St where
   pcs : List Pc
+  started : Nat := 0      -- instances started so far (= metrics.InstanceStart); instance ids are 0 … started-1
   shared : Nat            -- tokens left in the shared profile
   own : List Nat          -- tokens left in each instance's own profile (per-instance mode)
   ammoLeft : Option Nat
   acquired : Nat := 0
   released : Nat := 0
-  fired : Nat := 0
-  discarded : Nat := 0
+  fired : Nat := 0        -- calls of gun.Shoot
+  discarded : Nat := 0    -- discarded samples reported
   unfired : Nat := 0      -- ammo released without a shot or discard
   unf : List Bool         -- instance i released an unfired ammo
   lastDrawer : Option Nat := none
-  request : Nat := 0
-  response : Nat := 0
+  request : Nat := 0      -- metrics.Request
+  response : Nat := 0     -- metrics.Response
+  cur : List (Option Nat) -- the item held in the local variable `ammo` of each instance
+  rels : List Nat := []   -- per item: number of Release calls
+  badUse : Bool := false  -- a Shoot or Release of an item that was not held at that moment
 deriving Repr
 
 def init (c : Cfg) : St :=
-  { pcs := List.replicate c.instances .check, shared := c.tokens,
-    own := List.replicate c.instances c.tokens, ammoLeft := c.ammo,
-    unf := List.replicate c.instances false }
+  { pcs := List.replicate c.instances .idle, shared := c.tokens,
+    own := List.replicate c.instances 0, ammoLeft := c.ammo,
+    unf := List.replicate c.instances false, cur := List.replicate c.instances none }
 
 /-- tokens left in the schedule instance `i` draws from -/
 def St.left (c : Cfg) (s : St) (i : Nat) : Nat := if c.perInstance then s.own[i]?.getD 0 else s.shared
@@ -61,7 +96,15 @@ def St.left (c : Cfg) (s : St) (i : Nat) : Nat := if c.perInstance then s.own[i]
 def St.draw (c : Cfg) (s : St) (i : Nat) : St :=
   if c.perInstance then { s with own := s.own.set i (s.own[i]?.getD 0 - 1) } else { s with shared := s.shared - 1 }
 
+/-- item `k` is currently held: acquired and not released -/
+def St.heldItem (s : St) (k : Nat) : Bool := s.rels[k]? == some 0
+
 def step (c : Cfg) (s : St) : Ev → Option St
+  | .start i =>
+      -- instances are numbered in the order of their start; with rps-per-instance `newSchedule()` builds a fresh profile
+      if i = s.started ∧ s.pcs[i]? = some .idle then
+        some { s with pcs := s.pcs.set i .check, started := s.started + 1, own := s.own.set i c.tokens }
+      else none
   | .chk i left =>
       if s.pcs[i]? = some .check ∧ left = s.left c i then
         some { s with pcs := s.pcs.set i (if left = 0 then .done else .acquire) }
@@ -69,9 +112,11 @@ def step (c : Cfg) (s : St) : Ev → Option St
   | .acq i =>
       if s.pcs[i]? = some .acquire then
         match s.ammoLeft with
-        | none => some { s with pcs := s.pcs.set i .wait, acquired := s.acquired + 1 }
+        | none => some { s with pcs := s.pcs.set i .wait, acquired := s.acquired + 1,
+                                cur := s.cur.set i (some s.acquired), rels := s.rels ++ [0] }
         | some 0 => none
-        | some (a + 1) => some { s with pcs := s.pcs.set i .wait, acquired := s.acquired + 1, ammoLeft := some a }
+        | some (a + 1) => some { s with pcs := s.pcs.set i .wait, acquired := s.acquired + 1, ammoLeft := some a,
+                                        cur := s.cur.set i (some s.acquired), rels := s.rels ++ [0] }
       else none
   | .empty i =>
       if s.pcs[i]? = some .acquire ∧ s.ammoLeft = some 0 then some { s with pcs := s.pcs.set i .done } else none
@@ -83,17 +128,26 @@ def step (c : Cfg) (s : St) : Ev → Option St
       if s.pcs[i]? = some .wait ∧ s.left c i = 0 then
         some { s with pcs := s.pcs.set i .release, unfired := s.unfired + 1, unf := s.unf.set i true }
       else none
-  | .shoot i =>
+  | .reqAdd i =>
       if s.pcs[i]? = some .decide then
-        some { s with pcs := s.pcs.set i .release, fired := s.fired + 1, request := s.request + 1, response := s.response + 1 }
+        some { s with pcs := s.pcs.set i .firing, request := s.request + 1 }
+      else none
+  | .shoot i k =>
+      if s.pcs[i]? = some .firing ∧ s.cur[i]? = some (some k) then
+        some { s with pcs := s.pcs.set i .shot, fired := s.fired + 1, badUse := s.badUse || !s.heldItem k }
+      else none
+  | .respAdd i =>
+      if s.pcs[i]? = some .shot then
+        some { s with pcs := s.pcs.set i .release, response := s.response + 1 }
       else none
   | .discard i =>
       if s.pcs[i]? = some .decide ∧ c.discardOn then
         some { s with pcs := s.pcs.set i .release, discarded := s.discarded + 1 }
       else none
-  | .rel i =>
-      if s.pcs[i]? = some .release then
-        some { s with pcs := s.pcs.set i .check, released := s.released + 1 }
+  | .rel i k =>
+      if s.pcs[i]? = some .release ∧ s.cur[i]? = some (some k) then
+        some { s with pcs := s.pcs.set i .check, released := s.released + 1, cur := s.cur.set i none,
+                      rels := s.rels.set k (s.rels[k]?.getD 0 + 1), badUse := s.badUse || !s.heldItem k }
       else none
 
 /-- run a trace; `none` = some event was not enabled (the trace is not a behaviour of the model) -/
@@ -103,10 +157,11 @@ def run (c : Cfg) : St → List Ev → Option St
     | some s' => run c s' es
     | none => none
 
-def St.terminal (s : St) : Bool := s.pcs.all (· == .done)
+/-- the pool has ended: every started instance has left its loop -/
+def St.terminal (s : St) : Bool := s.pcs.all (fun p => p == .done || p == .idle)
 
-/-- total tokens of the pool: the shared profile, or one full profile per started instance -/
-def Cfg.totalTokens (c : Cfg) : Nat := if c.perInstance then c.instances * c.tokens else c.tokens
+/-- total tokens of the pool: the shared profile, or one full profile per STARTED instance -/
+def St.totalTokens (c : Cfg) (s : St) : Nat := if c.perInstance then s.started * c.tokens else c.tokens
 
 def minOpt (t : Nat) : Option Nat → Nat
   | none => t
